@@ -8,3 +8,6 @@ UNDECIDED = "the sweep/tiling invariants themselves; f32 rounding."
 ASSUMPTIONS = [K.A_BYTEORDER, K.A_BYTES, K.A_TABLE, K.A_PRED, "index_list::IndexList has list semantics"]
 OBLIGATIONS = [K.BED_TILING, K.BED_ZOOM_STAT, K.SWEEPS, K.ZOOM_SECTION_W, K.ZOOM_BLOCK_R, K.ZOOM_KEEP, K.ZOOM_OFFSETS, K.INDEX_PAIRS, K.BED_GUARDS, K.ZOOM_LIST]
 OBLIGATIONS = OBLIGATIONS + [K.EVERY_VALUE]
+OBLIGATIONS = OBLIGATIONS + [K.ZOOMCOUNT_SIBS]
+OBLIGATIONS = OBLIGATIONS + [K.PROCESSOR_ARGS]
+OBLIGATIONS = OBLIGATIONS + [K.PROCESS_DATA]
